@@ -408,7 +408,7 @@ def r5_carriers(ctx):
         if k.arg == 'frequency':
             ok = e is not None and ast.unparse(e) in (f'list({d}.keys())', f'list({d})')
         else:
-            ok = isinstance(e, ast.ListComp) and ast.unparse(e.generators[0].iter) == f'{d}.values()' and \
+            ok = isinstance(e, ast.ListComp) and ast.unparse(resolved(defs, e.generators[0].iter)) in (f'{d}.values()', f'list({d}.values())') and \
                 isinstance(e.elt, ast.Attribute) and e.elt.attr == src.get(k.arg) and not e.generators[0].ifs
         ctx.check('R5.carriers', f'{site(f)} {k.arg}', bool(ok), key(f, f'list|{k.arg}'),
                   f'the per-channel list {k.arg} is not built from the same carrier dict, in its iteration order, from '
